@@ -19,6 +19,7 @@ EXPLANATION = (
     "beside a driver 'B' evaluated over {none, own name, other name, other case, longer, empty} = (T,T,F,F,F,F), and each constructed driver "
     'reports the name it was built with; a constant-true implementation is the catch-all device; every concrete routing.Device subclass overrides '
     'accepts and message_from_client. C04.WRITE is shared with C05.WRITE (who may write the tables).'
+    ' C04.ISOLATED: two routers are constructed side by side in one interpreter state (2 clients and 2 devices each): the tables are per router and a message processed by one is never handed to the peers of the other (class-level tables are one object for all routers).'
 )
 NOT_DECIDED = "exactly-once under histories that register the same device object twice."
 ASSUMPTIONS = ["devices and clients do not override __eq__ (identity in 'device == sender')"]
